@@ -77,7 +77,9 @@ def one_tp(tp_kind: int, tp_line: int, ev_line: int, ev_kind: int, rel: int, ev_
     trig = build_trigger("tp1", "f.py", tp_line, args, [], _metrics())
     w.install([trig])
     evfile = ["/app/f.py", "/other/dir/f.py", "/app/g.py", "f.py"][rel]
-    frame = FakeFrame(evfile, FUNCS[ev_func], ev_line, {"x": 1})
+    # the function may be a method / nested function: its qualified name differs from its name
+    qual = [None, "Order." + FUNCS[ev_func], "make.<locals>." + FUNCS[ev_func]][(tp_line + ev_line) % 3]
+    frame = FakeFrame(evfile, FUNCS[ev_func], ev_line, {"x": 1}, qualname=qual)
     ret = w.event(frame, EVENTS[ev_kind], None)
     world.reached()
     same_file = rel in (0, 1, 3)
